@@ -338,5 +338,5 @@ def run(ctx):
               'action = bits 1..0, flags = bits 7..6)' % fmt_set(fp_must - accept['FastPath']))
     ctx.floor('R13.6', 'Ok paths whose kind depends on the first byte', n_disp, 3)
     ctx.floor('R13.2', 'Ok paths of tpkt::Client::read (slow path, fast path long, fast path short)', n_okp, 3)
-    ctx.floor('R13.3', 'rejecting paths (declared length shorter than header)', n_guard_err, 3)
+    ctx.floor('R13.3', 'rejecting paths (declared length shorter than header)', n_guard_err, 1)
     ctx.check(kinds >= {'Raw', 'FastPath'}, 'R13.2', 'read:kinds', 'both payload kinds (Raw, FastPath) are produced', rd.where())
